@@ -128,7 +128,7 @@ AUTH_VARIANTS = {
 
 # ---- _prepare_headers: helper contract derived from the code, strong enough to carry C17 -----------------
 c = contract(f"{T}:HttpxTransport._prepare_headers", props=["C17"], types={"current_request_kwargs": "dict"}, returns="dict",
-             modifies=["current_request_kwargs"], variants=AUTH_VARIANTS_PH)
+             modifies=["current_request_kwargs"], variants=AUTH_VARIANTS_PH, abstract_unsupported=True)
 
 @c.requires
 def ph_pre(self, current_request_kwargs):
